@@ -168,13 +168,22 @@ def apply_cache_limits(settings, variant='base'):
 
 # ---------------------------------------------------------------------------------------------------------
 def _child():
-  req = json.loads(sys.stdin.read())
+  sys_stdin_blob = sys.stdin.read()
+  req = json.loads(sys_stdin_blob)
   import tempfile
   import shutil
   root = tempfile.mkdtemp(prefix='daemonconf-', dir=os.environ.get('VERIF_SCRATCH_ROOT') or None)
   try:
     conf_dir = os.path.join(root, 'conf')
     os.makedirs(conf_dir)
+    # '{ROOT}' in a configured value stands for this start-up's own scratch directory (the start-up creates PID_DIR, which
+    # follows STORAGE_DIR: a storage root somewhere else on the machine would be created for real)
+    def _sub(d):
+      return {k: (v.replace('{ROOT}', root) if isinstance(v, str) else v) for k, v in (d or {}).items()}
+    req['base'] = _sub(req['base'])
+    if req['override'] is not None:
+      req['override'] = _sub(req['override'])
+    req['sections'] = {sec: _sub(kv) for sec, kv in (req.get('sections') or {}).items()}
     section = req['program'][len('carbon-'):]
     lines = ['[%s]' % section, 'DATABASE = verifconf', 'ENABLE_TAGS = False']
     lines += ['%s = %s' % kv for kv in sorted(req['base'].items())]
@@ -296,6 +305,10 @@ def _child():
         out[k] = list(v)
     out[ENV_KEY] = sorted(k for k in consulted if isinstance(k, str))
     out[DB_DIR_KEY] = getattr(VerifConfDatabase, 'data_dir_at_construction', MISSING)
+    if '{ROOT}' in json.dumps(json.loads(sys_stdin_blob)):
+      for k, v in list(out.items()):
+        if isinstance(v, str) and root in v:
+          out[k] = v.replace(root, '{ROOT}')
     os.environ = real_environ
     print('RESULT ' + json.dumps(out))
   finally:
